@@ -127,7 +127,21 @@ def spec_text(name, spec, dims):
         return "%s = fill(%s, %s)" % (name, lit(spec[1]), ", ".join(str(d) for d in dims))
     if kind == "scaled":
         return "%s = %s * %s" % (name, lit(spec[1]), spec[2])
+    if kind == "symexpr":
+        return ("each " if dims else "") + "%s = %s" % (name, symexpr_text(spec))
+    if kind == "arrexpr":
+        return "%s = %s" % (name, arrexpr_text(spec))
     raise ValueError(kind)
+
+
+def symexpr_text(spec):
+    """scalar expression of ELEMENTS of array parameters: c1 * P[i] + c2 * Q[j,k] + const"""
+    t = " + ".join(("%s * %s" % (lit(c), ref) if c != 1 else ref) for c, ref in spec[1])
+    return t + (" + %s" % lit(spec[2]) if spec[2] else "")
+
+
+def arrexpr_text(spec):
+    return "-%s" % spec[2] if spec[1] == -1 else "%s * %s" % (lit(spec[1]), spec[2])
 
 
 def value_text(spec, dims):
@@ -141,6 +155,10 @@ def value_text(spec, dims):
         return "fill(%s, %s)" % (lit(spec[1]), ", ".join(str(d) for d in dims))
     if kind == "scaled":
         return "%s * %s" % (lit(spec[1]), spec[2])
+    if kind == "symexpr":
+        return symexpr_text(spec)
+    if kind == "arrexpr":
+        return arrexpr_text(spec)
     raise ValueError(kind)
 
 
@@ -242,6 +260,10 @@ def spec_attr(spec, lead, idx):
     kind = spec[0]
     if kind in ("each", "fill"):
         return float(spec[1])
+    if kind == "symexpr":
+        return ("sym", spec[1], spec[2])
+    if kind == "arrexpr":
+        return ("sym", [[spec[1], "%s[%s]" % (spec[2], ",".join(str(i + 1) for i in idx[lead:]))]], 0)
     v = spec[1]
     for i in idx[lead:]:
         v = v[i]
@@ -280,6 +302,12 @@ def gen_model(rng, flavour):
                             maxrank=3 if flavour == "tensor" else 2))
     if flavour == "tensor":
         pars.append(add_top("parameter", "Real", dims=r.choice([[2, 2, 2], [2, 1, 3], [1, 2, 2], [3, 2, 2]])))
+    if flavour == "symattr":
+        shared = g.dims(2)
+        pars.append(add_top("parameter", "Real", dims=list(shared)))
+        pars.append(add_top("parameter", "Real", dims=[r.choice([2, 3])]))
+        algs.append(add_top(r.choice(["", "output"]), dims=list(shared)))
+        desc["decls"].append(g.decl(g.fresh("y"), "Real", r.choice(["", "parameter"]), []))
     for _ in range(n_alg):
         algs.append(add_top(r.choice(["", "", "output", "input"])))
     if r.random() < 0.5:
@@ -359,6 +387,39 @@ def gen_model(rng, flavour):
             desc["classes"].append({"name": "Bn", "decls": [], "comps": [{"name": "a", "cls": "An", "dims": []}],
                                     "eqs": []})
             desc["comps"].append({"name": g.fresh("b"), "cls": "Bn", "dims": [r.choice([2, 3])], "mods": []})
+
+    # ---- symbolic attributes that are scalar expressions of ELEMENTS of array parameters -------
+    # (broadcast with `each` on arrays, plain on scalars; alone and next to indexed symbolic ones)
+    heavy = flavour == "symattr"
+    pools = [d for d in desc["decls"] if d["type"] == "Real" and d["prefix"] == "parameter"
+             and 1 <= len(d["dims"]) <= 2]
+
+    def sym_expr(exclude):
+        cand = [q for q in pools if q is not exclude]
+        terms = []
+        for _ in range(r.choice([1, 1, 2])):
+            if cand:
+                q = r.choice(cand)
+                terms.append([r.choice([1, 1, 2, 3]),
+                              "%s[%s]" % (q["name"], ",".join(str(r.randrange(k) + 1) for k in q["dims"]))])
+            else:
+                terms.append([r.choice([2, 3]), "ka"])
+        return ["symexpr", terms, r.choice([0, 0, r.randint(1, 40) / 4.0])]
+
+    if pools and flavour != "lowrank":
+        for d in desc["decls"]:
+            if d["type"] != "Real" or d["name"] in ("ka", "dt") or d["prefix"] == "constant" or len(d["dims"]) > 2:
+                continue
+            if r.random() < (0.7 if heavy else 0.15):
+                fa = [a for a in ("min", "max", "nominal", "start") if a not in d["attrs"]]
+                for a in r.sample(fa, min(len(fa), r.choice([1, 1, 2]))):
+                    d["attrs"][a] = sym_expr(d)
+                same_dims = [q for q in pools if q["dims"] == d["dims"] and q is not d]
+                fa = [a for a in ("min", "max", "nominal", "start") if a not in d["attrs"]]
+                if d["dims"] and same_dims and fa and r.random() < 0.4:
+                    d["attrs"][r.choice(fa)] = ["arrexpr", r.choice([-1, 2, 3]), r.choice(same_dims)["name"]]
+            if heavy and not d["dims"] and d["prefix"] == "parameter" and d["value"] is None and r.random() < 0.5:
+                d["value"] = sym_expr(d)
 
     # ---- equations over the flattened Real variables of rank <= 2 ---------------------------
     flat = flatten_desc(desc)
@@ -575,6 +636,7 @@ def judge(case, res):
         return (tag, "simplify({'expand_vectors': True}) raised %s: %s" % (res["E_exc"]["exc"], res["E_exc"]["msg"]))
     # ---- names, order and attributes per category -----------------------------------------
     delay_u = res["U_delay_states"]
+    meta_want = {}
     for g in GROUPS:
         want = []
         for v in res["U"][g]:
@@ -583,7 +645,9 @@ def judge(case, res):
                 e = exp[un]
                 for nm, idx in zip(e["names"], e["idx"]):
                     want.append((nm, v, e, idx))
-            elif un in exp or _prod(v["shape"]) == 1:
+            elif un in exp and not exp[un]["dims"]:
+                want.append((un, v, exp[un], ()))             # declared scalar: its declared attributes are judged too
+            elif _prod(v["shape"]) == 1:
                 want.append((un, v, None, None))
             else:
                 return ("oracle-unknown-variable", "unexpanded model has %s which the generator did not declare" % un)
@@ -591,7 +655,9 @@ def judge(case, res):
         if [w[0] for w in want] != [x["name"] for x in got]:
             return ("names", "%s: expanded names %s, declared arrays give %s"
                     % (g, [x["name"] for x in got][:12], [w[0] for w in want][:12]))
+        meta_want[g] = []
         for (nm, uv, e, idx), ev in zip(want, got):
+            meta_want[g].append((nm, {}))
             if ev["shape"] != [1, 1] and e is not None:
                 return ("names", "%s is not a scalar symbol (%s)" % (nm, ev["shape"]))
             if ev["ptype"] != uv["ptype"]:
@@ -599,14 +665,33 @@ def judge(case, res):
             for a in ATTRS:
                 w = expected_attr(e, idx, a, uv, vals)
                 o = ev["attrs"][a]
+                if o.get("free"):
+                    return ("attributes", "%s.%s = %s still refers to %s, which is not a variable of the expanded "
+                            "model" % (nm, a, o.get("repr"), ", ".join(o["free"])))
                 if w is None:
                     continue
+                meta_want[g][-1][1][a] = w
                 if o["k"] not in ("s", "mx", "dm") or (o["k"] != "s" and o["shape"] != [1, 1]):
                     return ("attributes", "%s.%s is not a scalar after expansion: %s" % (nm, a, o))
                 ov = o["v"] if o["k"] == "s" else (o["rows"][0][0] if o["rows"] else None)
                 if ov is None or not same(ov, w):
                     return ("attributes", "%s.%s = %s, matching element of the declared attribute is %s"
                             % (nm, a, ov, w))
+    # ---- the real variable_metadata_function of the expanded model, at the parameter valuation -----
+    em = res.get("E_meta")
+    if em is not None:
+        if "err" in em:
+            return ("metadata-function", "variable_metadata_function of the expanded model cannot be built / "
+                    "evaluated from the expanded parameters: %s" % em["err"])
+        for g in ("states", "alg_states", "inputs", "parameters", "constants"):
+            rows = em["groups"].get(g, [])
+            if len(rows) != len(meta_want[g]) and (rows or meta_want[g]):
+                return ("metadata-function", "%s: %d metadata rows for %d scalars" % (g, len(rows), len(meta_want[g])))
+            for row, (nm, ws) in zip(rows, meta_want[g]):
+                for k, a in enumerate(ATTRS):
+                    if a in ws and not same(row[k], ws[a]):
+                        return ("metadata-function", "variable_metadata_function gives %s.%s = %s, matching element "
+                                "of the declared attribute is %s" % (nm, a, row[k], ws[a]))
     # ---- outputs: renamed in place, in order ------------------------------------------------
     want_out = []
     for o in res["U_outputs"]:
@@ -686,6 +771,8 @@ def expected_attr(e, idx, a, uv, vals):
     if f is not None and a in f["attrs"]:
         spec, lead = f["attrs"][a]
         w = spec_attr(spec, lead, idx)
+        if isinstance(w, tuple) and w[0] == "sym":
+            return sum(c * vals[ref] for c, ref in w[1]) + w[2]
         if isinstance(w, tuple):
             return w[1] * fnum(vals_of_scalar(uv, w[2], vals))
         return w
@@ -815,6 +902,17 @@ def corpus():
                    D("w", [2], "output", attrs={"min": ["scaled", [1, 2], "ka"]}), D("y", [], "output")],
          "eqs": ["m = 2 * p + p;", "t = transpose(m) * 3;", "w = m * v;", "y = m[1,3] * t[3,1] + v[2];"],
          "ieqs": ["m[2,1] = p[1,2];"]})
+    # symbolic attributes that are scalar expressions of elements of array parameters: broadcast on arrays,
+    # on scalars, alone and next to an indexed symbolic attribute (min = -w)
+    add({"decls": [ka, dt, D("lim", [3], "parameter", value=["full", [10, 20, 30]]),
+                   D("w", [2, 2], "parameter", value=["full", [[1, 2], [3, 4]]]),
+                   D("x", [3], attrs={"max": ["symexpr", [[1, "lim[2]"]], 0]}),
+                   D("z", [2, 2], attrs={"nominal": ["symexpr", [[1, "w[2,1]"], [2, "lim[3]"]], 0.5],
+                                         "min": ["arrexpr", -1, "w"]}),
+                   D("y", [], "output", attrs={"max": ["symexpr", [[1, "lim[2]"]], 0]}),
+                   D("tot", [], "parameter", value=["symexpr", [[2, "lim[1]"], [1, "lim[3]"]], 0]),
+                   D("v", [2], "input", attrs={"start": ["symexpr", [[3, "w[1,2]"]], 0], "max": ["scaled", [5, 6], "ka"]})],
+         "eqs": ["x = {1, 2, 3} * ka;", "z = w * 2;", "y = x[1] * tot + v[2];"]})
     # derivatives of arrays, outputs between scalars, for loop
     add({"decls": [ka, dt, D("a", [], "output"), D("x", [3], "output", attrs={"start": ["full", [1, 2, 3]]}),
                    D("b", [], "output"), D("z", [3], "input"), D("q", [3, 1]), D("r", [1, 3]), D("e", [1]), D("f", [1, 1])],
@@ -876,7 +974,7 @@ def run(ctx):
 
     descs = corpus()
     n_corpus = len(descs)
-    mix = (["plain"] * 4 + ["comp"] * 3 + ["delay"] * 2 + ["tensor"] + ["lowrank"])
+    mix = (["plain"] * 3 + ["symattr"] * 2 + ["comp"] * 3 + ["delay"] * 2 + ["tensor"] + ["lowrank"])
     n_rand = ctx.scaled(70, 1800)
     for i in range(n_rand):
         descs.append(gen_model(ctx.rng, mix[i % len(mix)]))
